@@ -290,7 +290,7 @@ Example C15_example_friction :
 Proof. repeat split; vm_compute; reflexivity. Qed.
 
 Example C15_example_pump_pressure :
-  dp_prod_index 450 29000 55 (5 # 100) 900 3000 200 == dp_prod_index 450 29000 55 (5 # 100) 900 3000 0 + 200
-  /\ 0 < dp_prod_index 450 29000 55 (5 # 100) 900 3000 200
+  dp_prod_index 1500 29000 55 (5 # 100) 900 3000 200 == dp_prod_index 1500 29000 55 (5 # 100) 900 3000 0 + 200
+  /\ 0 < dp_prod_index 1500 29000 55 (5 # 100) 900 3000 200
   /\ (16 # 1000) * pow5 (2 # 10) <= (15 # 1000) * pow5 (25 # 100).
 Proof. split; [vm_compute; reflexivity|]. split; [vm_compute; reflexivity|]. vm_compute. discriminate. Qed.
